@@ -92,6 +92,7 @@ fn gen_history(p: &mut Prng, arch: Arch, n_ops: usize) -> Hist {
     // or a copy of the outer module's): C07 does not speak about overlapping sets (its oracles
     // are switched off for them), but C06 does - which module such an address is given to must
     // not depend on what the cache has seen
+    let mut nested: Option<usize> = None;
     if p.chance(1, 6) {
         let big: Vec<usize> = (0..mods.len()).filter(|i| mods[*i].end - mods[*i].start >= 0x100).collect();
         if !big.is_empty() {
@@ -107,6 +108,7 @@ fn gen_history(p: &mut Prng, arch: Arch, n_ops: usize) -> Hist {
                 inner.base_avma = start;
             }
             mods.push(inner);
+            nested = Some(mods.len() - 1);
         }
     }
     for (i, m) in mods.iter().enumerate() {
@@ -140,12 +142,21 @@ fn gen_history(p: &mut Prng, arch: Arch, n_ops: usize) -> Hist {
     // which modules each unwinder currently holds (only non-overlapping sets are generated)
     let mut live: BTreeMap<String, Vec<usize>> = BTreeMap::new();
     live.insert("u0".into(), vec![]);
+    // half of the nested mappings are registered late: after a few calls went through the outer
+    // module alone (what those calls left in the cache must not answer for the new module set)
+    let late_nested = nested.filter(|_| p.chance(1, 2));
     for i in 0..mods.len() {
+        if Some(i) == late_nested {
+            // counted as held from the start so that no second `add` is generated for it
+            live.get_mut("u0").unwrap().push(i);
+            continue;
+        }
         if p.chance(3, 4) {
             ops.push(Op::Add { u: "u0".into(), m: format!("m{i}") });
             live.get_mut("u0").unwrap().push(i);
         }
     }
+    let first_generated_op = ops.len();
     let mut last_unwind: Option<Op> = None;
     let mixed_kinds = p.chance(1, 5);
     for _ in 0..n_ops {
@@ -260,6 +271,50 @@ fn gen_history(p: &mut Prng, arch: Arch, n_ops: usize) -> Hist {
                 let mem = gen_mem(p, &regs);
                 ops.push(Op::Iter { u, c, pc, regs, mem, extra: p.below(4), max: 40 });
             }
+        }
+    }
+    if let Some(ni) = late_nested {
+        // after the k-th unwind call of u0, unless the mapping's start was named by a remove
+        // before (then: right at the start, as for the others)
+        let k = 3 + p.below(6) as usize;
+        let mut seen = 0usize;
+        let mut pos = first_generated_op;
+        for (j, o) in ops.iter().enumerate().skip(first_generated_op) {
+            match o {
+                Op::Remove { start, .. } if *start == mods[ni].start => break,
+                Op::Clone { .. } => break,
+                Op::Unwind { u, .. } if u == "u0" => {
+                    seen += 1;
+                    if seen == k {
+                        pos = j + 1;
+                        break;
+                    }
+                    pos = j + 1;
+                }
+                _ => {}
+            }
+        }
+        // calls at addresses of the nested mapping (and just behind its end) before and after
+        // it is registered, on the same cache
+        let inner = mods[ni].clone();
+        let mut probes: Vec<Op> = Vec::new();
+        for la in [inner.start, inner.start + (inner.end - inner.start) / 2, inner.end] {
+            let is_ra = *kind.entry(la).or_insert_with(|| p.chance(1, 2)) && la != u64::MAX;
+            let addr = if is_ra { la + 1 } else { la };
+            let regs = gen_regs(p, arch, addr);
+            let mem = gen_mem(p, &regs);
+            probes.push(Op::Unwind { u: "u0".into(), c: "c0".into(), is_ra, addr, regs, mem });
+        }
+        let mut seq: Vec<Op> = probes.clone();
+        seq.push(Op::Add { u: "u0".into(), m: format!("m{ni}") });
+        for o in &probes {
+            if let Op::Unwind { u, c, is_ra, addr, regs, mem } = o {
+                let (regs2, mem2) = if p.chance(1, 2) { (regs.clone(), mem.clone()) } else { let r = gen_regs(p, arch, *addr); let m = gen_mem(p, &r); (r, m) };
+                seq.push(Op::Unwind { u: u.clone(), c: c.clone(), is_ra: *is_ra, addr: *addr, regs: regs2, mem: mem2 });
+            }
+        }
+        for (k, o) in seq.into_iter().enumerate() {
+            ops.insert(pos + k, o);
         }
     }
     Hist { ops }
@@ -411,6 +466,13 @@ pub fn step_oracles(rep: &mut Report, op: &Op, obs: &Obs, ans: &str, case: impl 
                 Ok(Some(ra)) => {
                     if *ra == 0 {
                         add_oracle(rep, &["C11"], "null-frame", "null address reported as a frame".into(), case(), ans);
+                        // C16: a null left after stripping is a signed (or plain) null return
+                        // address - the unsigned variant of this stack ends here with Ok(None)
+                        if let RegsAny::A(a) = regs {
+                            if a.mask != u64::MAX {
+                                add_oracle(rep, &["C16"], "signed-null-return-address-reported-as-a-frame", "the saved return address is null once the authentication bits are stripped: the unsigned stack ends here, the signed one reports a frame".into(), case(), ans);
+                            }
+                        }
                     }
                     if *is_ra {
                         let (sp0, sp1) = (regs.sp(), after.sp());
@@ -607,6 +669,41 @@ pub fn run_history<H: ArchH>(rep: &mut Report, h: &Hist, hist_id: u64, all_gens:
                             context_of(&lines, here), &got);
                     }
                 }
+                // C04: an address given to no module, or to a module without unwind data, is
+                // unwound with the fallback rule - whatever the cache has seen. "Given to": the
+                // registered module with the greatest start at or below the lookup address, if
+                // the address is below its end (the search's meaning for any set of ranges,
+                // theorem C07_greatest_start_decides). Expected outcome: the implementation's
+                // own fallback rule executed through the hook on the same registers and stack
+                // (that rule is judged against the frame-pointer convention by the `rule` engine).
+                {
+                    let la = if *is_ra { addr.wrapping_sub(1) } else { *addr };
+                    let mut best: Option<&ModSpec> = None;
+                    for id in &w.live[u] {
+                        let m = &w.mods[id].0;
+                        if m.start <= la && best.map_or(true, |b| m.start > b.start) {
+                            best = Some(m);
+                        }
+                    }
+                    let data_less = match best {
+                        None => true,
+                        Some(m) => la >= m.end || matches!(m.data, DataSpec::None),
+                    };
+                    if data_less {
+                        let expect = match regs {
+                            RegsAny::X(r) => crate::rules::CaseX { rule: framehop::verif_hooks::fallback_rule_x86_64(), first: !*is_ra, regs: r.clone(), mem: mem.clone() }.run().map(|t| t.0),
+                            RegsAny::A(r) => crate::rules::CaseA { rule: framehop::verif_hooks::fallback_rule_aarch64(), first: !*is_ra, regs: r.clone(), mem: mem.clone() }.run().map(|t| t.0),
+                        };
+                        rep.count("calls at addresses without unwind data judged against the fallback rule");
+                        if let Ok(e) = expect {
+                            if e != got {
+                                add_oracle(rep, &["C04"], "no-unwind-data-not-the-fallback-rule",
+                                    format!("the lookup address {la:#x} belongs to no module or to a module without unwind data: the fallback rule gives {e}"),
+                                    context_of(&lines, here), &got);
+                            }
+                        }
+                    }
+                }
                 // C04: a first frame at an address of a DWARF module that no FDE covers is a
                 // frameless leaf (decided from the generator's own description of the module)
                 if !*is_ra {
@@ -656,6 +753,11 @@ pub fn run_history<H: ArchH>(rep: &mut Report, h: &Hist, hist_id: u64, all_gens:
                         Ok(Some(ra)) => {
                             if *ra == 0 {
                                 add_oracle(rep, &["C11"], "null-frame", "null address reported as a frame".into(), context_of(&lines, here), &ans);
+                                if let RegsAny::A(a) = regs {
+                                    if a.mask != u64::MAX {
+                                        add_oracle(rep, &["C16"], "signed-null-return-address-reported-as-a-frame", "the saved return address is null once the authentication bits are stripped: the unsigned stack ends here, the signed one reports a frame".into(), context_of(&lines, here), &ans);
+                                    }
+                                }
                             }
                             if *is_ra {
                                 let (sp0, sp1) = (regs.sp(), after.sp());
